@@ -129,6 +129,13 @@ def _read(p):
         return f.read()
 
 
+def build_dir(here, repo, name):
+    """/repo -> build/kani/<name>; any other tree (mutated scratch copy) gets its own directory so runs cannot collide"""
+    rp = os.path.realpath(repo)
+    tag = "" if rp == "/repo" else "@" + _sha(rp)[:8]
+    return os.path.join(here, "build", "kani", name + tag)
+
+
 def generate(here, repo, name):
     """-> (crate_dir, meta).  Raises KaniUnitError / ExtractError / RewriteError / LexError / OSError."""
     X._cache.clear()  # always re-read the repository: `repo` may be a scratch copy that was edited since the last call
@@ -138,7 +145,7 @@ def generate(here, repo, name):
     except (OSError, ValueError) as e:
         raise KaniUnitError("cannot read %s/unit.json: %s" % (udir, e))
     crate = cfg.get("crate", name.lower().replace("-", "_"))
-    out = os.path.join(here, "build", "kani", name)
+    out = build_dir(here, repo, name)
     os.makedirs(os.path.join(out, "src"), exist_ok=True)
     os.makedirs(os.path.join(out, ".cargo"), exist_ok=True)
     os.makedirs(os.path.join(out, "logs"), exist_ok=True)
@@ -278,13 +285,22 @@ def _harness_fns(hsrc):
     st = X.sig(X.lex(hsrc))
     items = []
     X._scan_items(hsrc, st, 0, len(st), "harness.rs", [], items)
+    fns = {it.name: it for it in items if it.kind == "fn"}
+
+    def has_cover(nm, depth=0):
+        body = hsrc[fns[nm].body_open:fns[nm].end]
+        if "kani::cover!" in body:
+            return True
+        if depth >= 3:
+            return False
+        # a helper of harness.rs named in the body (the dynamic check on CBMC's cover results is what finally decides)
+        return any(h != nm and re.search(r"\b%s\s*(::\s*<|\()" % re.escape(h), body) and has_cover(h, depth + 1) for h in fns)
+
     out = {}
-    for it in items:
-        if it.kind != "fn":
-            continue
+    for it in fns.values():
         attrs = hsrc[it.attrs_start:it.header_start]
         if "kani::proof" in attrs:
-            out[it.name] = {"text": hsrc[it.attrs_start:it.end], "has_cover": "kani::cover!" in hsrc[it.body_open:it.end], "attrs": attrs}
+            out[it.name] = {"text": hsrc[it.attrs_start:it.end], "has_cover": has_cover(it.name), "attrs": attrs}
     return out
 
 
@@ -317,6 +333,7 @@ def _run(cmd, cwd, timeout, target_dir):
     return {"rc": p.returncode, "stdout": so or "", "stderr": se or "", "timeout": to, "wall_s": time.time() - t0}
 
 
+FAIL = ("FAILURE", "FAILED")  # Kani 0.68 prints FAILURE; older/other formats FAILED
 _CHECK = re.compile(r"^Check (\d+): (\S+)\s*\n\s*- Status: (\w+)\s*\n\s*- Description: \"(.*)\"\s*\n(?:\s*- Location: (.*)\n)?", re.M)
 
 
@@ -338,7 +355,10 @@ def parse_output(text):
                 fn = lm.group(1)
         parts = cid.split(".")
         kind = parts[-2] if len(parts) >= 2 else cid
-        checks.append({"n": int(m.group(1)), "id": cid, "status": m.group(3), "description": m.group(4), "location": loc, "function": fn,
+        desc = m.group(4)
+        if len(desc) >= 2 and desc[0] == '"' and desc[-1] == '"':
+            desc = desc[1:-1]  # assert!(c, "msg") is printed with its own quotes
+        checks.append({"n": int(m.group(1)), "id": cid, "status": m.group(3), "description": desc, "location": loc, "function": fn,
                        "file_line": file_line, "class": kind})
     res = {"checks": checks}
     m = re.search(r"VERIFICATION:- (\w+)", text)
@@ -412,7 +432,7 @@ def run_harness(meta, h, tier):
     res = parse_output(text)
     res.update({"harness": name, "cmd": cmd_s, "rc": r["rc"], "timeout": r["timeout"], "wall_s": round(r["wall_s"], 1), "playback": None,
                 "unwind": unwind, "timeout_s": timeout, "raw_tail": text[-3000:]})
-    failed = [c for c in res["checks"] if c["status"] == "FAILED" and not _is_unwind(c)]
+    failed = [c for c in res["checks"] if c["status"] in FAIL and not _is_unwind(c)]
     if failed and not r["timeout"]:
         pb = base + ["-Z", "concrete-playback", "--concrete-playback=print"]
         r2 = _run(pb, meta["dir"], timeout, None)
@@ -427,6 +447,21 @@ def run_harness(meta, h, tier):
 
 
 def run_kani_unit(here, repo, name, tier):
+    """see module docstring; serialised per build directory (two `vx check` of different properties may share a unit)"""
+    bd = build_dir(here, repo, name)
+    os.makedirs(os.path.dirname(bd), exist_ok=True)
+    fd = os.open(bd + ".lock", os.O_CREAT | os.O_RDWR, 0o666)
+    try:
+        fcntl.flock(fd, fcntl.LOCK_EX)
+        return _run_kani_unit(here, repo, name, tier)
+    finally:
+        try:
+            fcntl.flock(fd, fcntl.LOCK_UN)
+        finally:
+            os.close(fd)
+
+
+def _run_kani_unit(here, repo, name, tier):
     t0 = time.time()
     r = {"unit": name, "status": "ok", "undecided_reason": None, "failures": [], "obligations": 0, "discharged": 0, "trusted": [], "samples": [],
          "bounded": [], "cmd": "", "solver_ms": 0, "functions": [], "harnesses": [], "covers": {"expected": 0, "satisfied": 0}}
@@ -492,7 +527,7 @@ def run_kani_unit(here, repo, name, tier):
         tags = h.get("props") or cfg.get("props") or None
         checks = [c for c in res["checks"] if not _is_cover(c)]
         covers = [c for c in res["checks"] if _is_cover(c)]
-        failed = [c for c in checks if c["status"] == "FAILED"]
+        failed = [c for c in checks if c["status"] in FAIL]
         unwind_failed = [c for c in failed if _is_unwind(c)]
         real_failed = [c for c in failed if not _is_unwind(c)]
         # UNREACHABLE = the check sits in code CBMC proved dead (e.g. the panic arm of a match): discharged, counted separately
@@ -541,7 +576,7 @@ def run_kani_unit(here, repo, name, tier):
             site = ""
             fn_id = c["function"] or h["name"]
             source = None
-            if c["file_line"] and c["file_line"][0].endswith("lib.rs"):
+            if c["file_line"] and c["file_line"][0] == "src/lib.rs":
                 ln = c["file_line"][1]
                 if 1 <= ln <= len(lib_lines):
                     site = lib_lines[ln - 1].strip()
@@ -559,7 +594,7 @@ def run_kani_unit(here, repo, name, tier):
                                   "source": source, "tags": tags, "verifier_output": vo})
         # samples: the harness claim and the first few written-out checks
         if len(r["samples"]) < 6:
-            ex_checks = [c for c in checks if c["file_line"] and c["file_line"][0].endswith("lib.rs")][:2]
+            ex_checks = [c for c in checks if c["file_line"] and c["file_line"][0] == "src/lib.rs"][:2]
             r["samples"].append({"harness": "%s/%s" % (name, h["name"]), "complete": complete, "claim": h.get("claim"),
                                  "checks": [{"id": c["id"], "description": c["description"], "location": c["location"], "status": c["status"]} for c in ex_checks],
                                  "source": (meta["harness_fns"].get(h["name"]) or {}).get("text", "")[:1200]})
